@@ -343,6 +343,8 @@ def run_check(prop, harness_name, tier, seed, replay_path=None, selftest=False, 
                                            "params": o["params"], "replay": rec})
                     else:
                         agg["model_only"] += 1
+                        mo = agg.setdefault("model_only_names", {})
+                        mo[o["name"]] = mo.get(o["name"], 0) + 1
             # definedness / exception findings
             for f in p["findings"]:
                 what = "finding:%s:%s" % (f["kind"], f["detail"])
@@ -434,7 +436,7 @@ def run_check(prop, harness_name, tier, seed, replay_path=None, selftest=False, 
             "discharged": agg["discharged"] + agg.get("defined_discharged", 0), "undecided": agg["undecided"],
             "property_obligations": agg["obligations"], "property_obligations_discharged": agg["discharged"],
             "definedness_obligations": agg.get("defined_checked", 0), "definedness_discharged": agg.get("defined_discharged", 0),
-            "refuted_model_only": agg["model_only"], "refuted_and_replayed": agg["refuted_replayed"],
+            "refuted_model_only": agg["model_only"], "refuted_model_only_by_obligation": agg.get("model_only_names", {}), "refuted_and_replayed": agg["refuted_replayed"],
             "definedness_findings_model_only": agg["findings_model_only"],
             "paths_aborted": agg["aborted"], "paths_inconclusive_branch": agg["inconclusive_paths"],
             "pending_paths_unexplored": agg["unexplored"], "jobs": agg["jobs"], "jobs_failed": agg["jobs_failed"],
